@@ -101,6 +101,8 @@ def as_user_number(rng, v):
         return np.float32(v)
     if r > 0.85:
         return np.float64(v)
+    if r > 0.8:
+        return np.array(v)       # a 0-d array (np.asarray(x), np.squeeze(...), arr.max(keepdims=...)): still one number
     return v
 
 
